@@ -81,7 +81,9 @@ static int secp256k1_ecmult_multi_var(const secp256k1_callback* error_callback, 
     (void)error_callback; (void)scratch;
     if (cb == ec_mult_verify_cb1) {
         const ec_mult_verify_cb_data1 *d = (const ec_mult_verify_cb_data1 *)cbdata;
+        size_t j = nondet_mm_idx();
         __CPROVER_assert(CB1_PRE(d, n), "C19 verify: first multi-exponentiation gets commit, gammas[(n-1)/2] and proof[65 (n-1)/2] readable (callback contract)");
+        if (n % 2 == 1 && j < (n - 1) / 2) __CPROVER_assert(scalar_ok(&d->gammas[j]), "C19 verify: every challenge gamma handed to the first callback is a scalar below n (callback contract)");
     } else if (cb == ec_mult_verify_cb2) {
         const ec_mult_verify_cb_data2 *d = (const ec_mult_verify_cb_data2 *)cbdata;
         __CPROVER_assert(CB2_PRE(d, n), "C19 verify: second multi-exponentiation gets s_g[g_len], s_h[n - g_len] and n generators readable (callback contract)");
@@ -186,6 +188,7 @@ void h_verify_cb(void) {
         d.commit = &commit;
         d.gammas = malloc(rounds * sizeof(secp256k1_scalar)); d.proof = malloc(rounds * 65);   /* exactly what CB1_PRE promises */
         __CPROVER_assume(d.gammas != NULL && d.proof != NULL && idx < n);
+        if (idx >= 1) __CPROVER_assume(scalar_ok(&d.gammas[(idx - 1) / 2]));   /* callback contract: the gammas are scalars (idx is arbitrary, so this is every entry the callback can read) */
         __CPROVER_assert(CB1_PRE(&d, n), "C19 verify_cb: harness data satisfies CB1_PRE");
         ret = ec_mult_verify_cb1(&sc, &pt, idx, &d);
         __CPROVER_assert(ret == 0 || ret == 1, "C19 verify_cb: callback 1 returns 0 or 1");
